@@ -36,6 +36,8 @@ AWKWARD = ["Data", "Encrypt", "Protocol", "Net2", "MapX", "Pub9", "Enum", "Int",
            "Globals", "Str", "Len", "Range", "Set", "Open", "Bytes", "Filter", "Sorted", "Getattr", "Vars", "Dir", "Print",
            "Object", "Tuple", "Zip", "Isinstance", "Setattr", "Hasattr", "Any", "All", "Iter", "Next", "Super"]
 COMMENT_BITS = ["The thing", "used for <b>stuff</b> & more", "it's > 9", "line one\nline two", "100% of 'it'", "a < b", "§ ünï ©"]
+AWKWARD_COMMENTS = ["The thing", 'Shown in the log as "quoted"', "ends with a backslash \\", "kept in C:\\new\\x files, see \\u and \\N", 'three quotes """ inside',
+                    "tab\there", "it's the 'last' one'", '"', "\\", "{braces} %s %(name)s", "back\\slash inside"]
 INT_KINDS = ["byte", "char", "short", "three", "int"]
 
 
@@ -92,7 +94,13 @@ class SpecGen:
         raise RuntimeError("field name pool exhausted")
 
     def comment(self):
-        return self.rng.choice(COMMENT_BITS) if self.chance(0.25) else None
+        c = self.rng.choice(COMMENT_BITS) if self.chance(0.25) else None
+        if c == COMMENT_BITS[0]:
+            # free text that is awkward inside a Python string literal takes turns with the plain one (chosen by a
+            # counter, so that the random stream - and with it every generated tree - stays what it was)
+            self._comments = getattr(self, "_comments", 0) + 1
+            c = AWKWARD_COMMENTS[self._comments % len(AWKWARD_COMMENTS)]
+        return c
 
     def refresh(self):
         self.interp = Interp(self.spec)
